@@ -1056,3 +1056,72 @@ W["convert_to_negative_twos_complement"] = dict(
                  "set_to_one, get_n_fresh; ripple_carry's contract is proved (C12.wp.ripple_carry); `~Var` is Var(-value) (cnf.py Var.__invert__), a generator "
                  "expression consumed once is read as the list of its elements"],
 )
+
+
+# ------------------------------------------------------------------ check_mismatch.py: combinations_mismatched_weights (C17)
+# The key of trial t, tuple([sample[f][t] for f in crossing]), is abstracted to KEY(t) (some function of t for a fixed sample and crossing); CNT(k, n) counts the
+# trials among the first n of the window whose key is k; CW is combination_weight.  Statement: the result is 0 iff every combination that occurs in the window
+# occurs exactly (with or_less: at most) combination_weight * weight times — what sample_mismatch_crossing relies on when it compares the result with 0.
+_CM_N = "max(end - start, 0)"
+_CM_OK = f"ite(or_less, CNT({{k}}, {_CM_N}) <= CW({{k}}) * weight, CNT({{k}}, {_CM_N}) == CW({{k}}) * weight)"
+
+
+def _cm_domain():
+    import itertools as it
+
+    class Lv:
+        def __init__(self, n, w):
+            self.name, self.weight = n, w
+
+        def __repr__(self):
+            return f"{self.name}/{self.weight}"
+    a = [Lv("a1", 1), Lv("a2", 2)]
+    b = [Lv("b1", 1), Lv("b2", 1)]
+    for T in (0, 1, 2, 3, 4):
+        for sa in it.product(a, repeat=T):
+            for sb in it.islice(it.product(b, repeat=T), 0, 6):
+                for (start, end) in ((0, T), (1, T), (0, max(T - 1, 0))):
+                    for weight in (1, 2):
+                        for ol in (False, True):
+                            yield dict(start=start, end=end, weight=weight, crossing=["A", "B"], sample={"A": list(sa), "B": list(sb)}, or_less=ol)
+
+
+def _cm_check(res, start, end, weight, crossing, sample, or_less):
+    from collections import Counter
+    cnt = Counter(tuple(sample[f][t] for f in crossing) for t in range(start, end))
+    ok_all = all((c <= k[0].weight * k[1].weight * weight) if or_less else (c == k[0].weight * k[1].weight * weight) for k, c in cnt.items())
+    return None if (res >= 0 and (res == 0) == ok_all) else f"result {res}, counts {dict(cnt)}, weight {weight}, or_less {or_less}"
+
+
+W["combinations_mismatched_weights"] = dict(
+    id="combinations_mismatched_weights", target="sweetpea._internal.check_mismatch:combinations_mismatched_weights", prop=["C17"],
+    params={"start": "int", "end": "int", "weight": "int", "crossing": "list[obj]", "sample": "obj", "or_less": "bool"},
+    spec_funcs={"KEY": (["int"], "obj"), "CW": (["obj"], "int")},
+    spec_defs={"CNT": dict(params={"k": "obj", "n": "int"}, returns="int", body="ite(n <= 0, 0, CNT(k, n - 1) + ite(KEY(start + n - 1) == k, 1, 0))")},
+    opaque={"tuple([sample[f][t] for f in crossing])": "KEY(t)"},
+    dict_types={"{}": "dict[obj,int]"},
+    uses={"combination_weight": dict(params={"levels": "obj"}, returns="int", ensures=["result == CW(levels)"])},
+    loops={0: dict(index="it", invariant=[
+               "forall(u, start, start + it, KEY(u) in combos)",
+               "forallo(k, implies(k in combos, exists(u, start, start + it, KEY(u) == k)))",
+               "forallo(k, implies(k in combos, combos[k] == CNT(k, it)))",
+               "forallo(k, implies(not (k in combos), CNT(k, it) == 0))"]),
+           1: dict(index="ix", invariant=[
+               "mismatch >= 0",
+               "iff(mismatch == 0, forall(i, 0, ix, " + _CM_OK.format(k="combos_keys[i]") + "))"])},
+    post_hints=[
+        "it == " + _CM_N,
+        "forall(t, start, end, KEY(t) in combos)",
+        "forall(t, start, end, exists(i, 0, len(combos_keys), combos_keys[i] == KEY(t)))",
+        "forall(i, 0, len(combos_keys), exists(t, start, end, KEY(t) == combos_keys[i]))",
+        "iff(mismatch == 0, forall(i, 0, len(combos_keys), " + _CM_OK.format(k="combos_keys[i]") + "))",
+        "implies(forall(i, 0, len(combos_keys), " + _CM_OK.format(k="combos_keys[i]") + "), forall(t, start, end, " + _CM_OK.format(k="KEY(t)") + "))",
+        "implies(forall(t, start, end, " + _CM_OK.format(k="KEY(t)") + "), forall(i, 0, len(combos_keys), " + _CM_OK.format(k="combos_keys[i]") + "))",
+    ],
+    ensures=["result >= 0",
+             "iff(result == 0, forall(t, start, end, " + _CM_OK.format(k="KEY(t)") + "))"],
+    native=dict(call=lambda f, start, end, weight, crossing, sample, or_less: f(start, end, weight, crossing, sample, or_less),
+                domain=_cm_domain, check=_cm_check, skip_requires=True, skip_ensures=True),
+    assumptions=["the trial key tuple([sample[f][t] for f in crossing]) is abstracted to an uninterpreted function of t; dict iteration is some repetition-free "
+                 "enumeration of the keys; combination_weight is an uninterpreted function of the key (its product-of-weights body is 3 lines, checked natively)"],
+)
